@@ -111,6 +111,7 @@ impl Space for PlainValues {
                 continue; // each date takes a ninth of the time alphabet; all times are covered across dates
             }
             let Oc::Ok(dt) = call(|| plain_date_time(days_from_civil(y, m, d), *t)) else { continue };
+            out.law("Display = auto text", call_inf(|| format!("{dt}")).ok() == Some(&format!("{dtext}T{}", time_text(*t, Prec::Auto))), || vec![("type", "PlainDateTime".to_string()), ("value", format!("{dtext}T{}", time_text(*t, Prec::Auto)))]);
             for (pm, pi, su) in precisions() {
                 for mode in MODES {
                     let attrs = || vec![("type", "PlainDateTime".to_string()), ("value", format!("{dtext}T{}", time_text(*t, Prec::Auto))), ("precision", format!("{pm:?}")), ("mode", format!("{mode:?}"))];
